@@ -133,7 +133,7 @@ def _case(draw):
     q = draw(st.tuples(st.integers(-3, 3), st.integers(-3, 3), st.integers(-3, 3), st.integers(-3, 3)))
     if all(x == 0 for x in q):
         q = (1, 1, 0, 0)
-    return {"kind": kind, "mols": mols, "J": J, "pols": pols, "quat": list(q), "scale": draw(st.sampled_from([0.5, 2.0, 1.5, 0.01, 0.003])),
+    return {"kind": kind, "mols": mols, "J": J, "pols": pols, "quat": list(q), "scale": draw(st.sampled_from([0.5, 2.0, 1.5, 0.01, 0.003, 3e-4])),
             "t2i": draw(st.integers(0, 5)), "shape": draw(st.sampled_from(["Gaussian", "Gaussian", "Lorentzian"])),
             # Lorentzian shapes: a common dephasing time unless this flag is set
             "deph_distinct": draw(st.sampled_from([False, False, False, True])),
@@ -170,7 +170,7 @@ class ReadChanged(HarnessError):
 
 
 def response(qr, mols, J, pols, t2i, shape, mult=2, want_pathways=False, deph_common=None, read_order=None,
-             lab_history=None, want_lab=False, lab_route=None, agg_history=None, calc_units=None):
+             lab_history=None, want_lab=False, lab_route=None, agg_history=None, calc_units=None, cont_out=None):
     """(REPH, NONR, TOTAL [, pathways, aggregate]) of the mock calculator for the given system"""
     from quantarhei.spectroscopy.mocktwodcalculator import MockTwoDResponseCalculator
     n = len(mols)
@@ -238,6 +238,24 @@ def response(qr, mols, J, pols, t2i, shape, mult=2, want_pathways=False, deph_co
             if not numpy.array_equal(later, reads[k][0]):
                 raise ReadChanged(k, float(numpy.max(numpy.abs(later - reads[k][0]))), order)
     out = [reads["R"][0], reads["N"][0], reads["T"][0]]
+    # the same response read through containers (indexed by the waiting-time axis and by integers) with the part
+    # selected for the whole container
+    from quantarhei.spectroscopy.twodcontainer import TwoDResponseContainer
+    for how in (("integer", "axis") if cont_out is not None else ()):
+        if how == "integer":
+            cont = TwoDResponseContainer()
+            cont.use_indexing_type("integer")
+            cont.set_spectrum(resp, tag=0)
+            key = 0
+        else:
+            cont = TwoDResponseContainer(t2axis=t2axis)
+            cont.use_indexing_type(t2axis)
+            cont.set_spectrum(resp, tag=t2)
+            key = t2
+        for k in ("R", "N", "T"):
+            cont.set_data_flag(flags[k])
+            got = numpy.array(cont.get_spectrum(key).d__data, copy=True)
+            cont_out[(how, k)] = float(numpy.max(numpy.abs(got - reads[k][0])))
     if want_pathways and want_lab:
         return out[0], out[1], out[2], pw[str(t2)], agg, lab
     if want_pathways:
@@ -268,22 +286,31 @@ def check_case(case, ctx):
     elif case.get("lab_history") in ("fields", "fields-prop"):
         # other pulse polarisations first (the same detection), then the pulses are set through LabField objects
         hist = [[pols[1], pols[2], pols[0], pols[3]]]
+        if all(float(x) == int(x) for x in pols[3]):
+            # the earlier setting given the way users type it: lists of integers
+            hist = [[[0, 1, 0], [0, 0, 1], [1, 0, 0], [int(x) for x in pols[3]]]]
+            ctx.label("lab-history:integer-lists")
     if hist:
         ctx.label("lab-object-reused:" + case["lab_history"])
     lab = None
+    cont_reads = {}
     try:
         ok, r = guarded(ctx, "response", lambda: response(qr, mols, J, pols, t2i, shape, want_pathways=True, deph_common=dc,
                                                           read_order=case.get("read_order"), lab_history=hist,
                                                           want_lab=True,
                                                           lab_route=case.get("lab_history"),
                                                           agg_history=case.get("agg_history"),
-                                                          calc_units=case.get("calc_units")), tag)
+                                                          calc_units=case.get("calc_units"), cont_out=cont_reads), tag)
     except ReadChanged as e:
         ctx.fail("reading-changes-the-response", tag, part=e.part, change=e.dev, order="".join(e.order))
         return
     if not ok:
         return
     reph, nonr, totl, pws, agg, lab = r
+    for (how, k), dev in sorted(cont_reads.items()):
+        if dev != 0.0:
+            ctx.fail("container-read-equals-response", tag, indexing=how, part=k, deviation=dev)
+            return
     peak = max(1e-300, float(numpy.max(numpy.abs(totl))), float(numpy.max(numpy.abs(reph))))
     n_esa = sum(1 for p in pws if "f" in str(p.pathway_name))
     ctx.mark_nontrivial(n >= 2 and n_esa >= 1 and noncol and nonpar)
